@@ -289,6 +289,109 @@ theorem Wf2_leftAsync {s : Sys} (h : Wf2 s) (t b' : Nat) (susp : Bool) (rest : L
         pend_congr _ _ _ _ rfl (fun g _ => hpp g)
       rw [this]; exact hc0
 
+/-- `TaskGroup.__aexit__` begins for the innermost entered async scope of a task that is running code -/
+theorem beginExit_Wf2 {s : Sys} (hw : Wf s) (h : Wf2 s) (t b : Nat) (o : Outcome) (rest : List Frame)
+    (hfr : (s.tasks t).frames = ⟨b, true⟩ :: rest)
+    (hst : (s.tasks t).status = .body ∨ ∃ o', (s.tasks t).status = .unwinding o') : Wf2 (beginExit s t b o) := by
+  have hin : b ∈ asyncGroups (s.tasks t).frames := by rw [hfr]; simp [asyncGroups_cons]
+  have hown := (hw.frames_owner t b hin).1
+  have hnw : ∀ g susp, (s.tasks t).status ≠ .exitWait g susp := by
+    intro g susp hh; rcases hst with e | ⟨o', e⟩ <;> rw [e] at hh <;> cases hh
+  have hnex : (s.groups b).exiting = false := by
+    cases he : (s.groups b).exiting with
+    | false => rfl
+    | true => obtain ⟨susp, hh⟩ := h.exiting_wait t b hin he; exact absurd hh (hnw b susp)
+  have hnd := h.nodup t
+  rw [hfr] at hnd
+  simp only [asyncGroups_cons, ↓reduceIte, List.nodup_cons] at hnd
+  have hother : ∀ x, x ≠ t → b ∉ asyncGroups (s.tasks x).frames := fun x hx hxb =>
+    hx ((hw.frames_owner x b hxb).1.symm.trans hown)
+  -- the state before the (quiet) abort
+  have h0 : Wf2 (setGroup (setTask s t (exitTask (s.tasks t) (s.groups b) b)) b (exitGroup (s.tasks t) (s.groups b) o)) := by
+    have hpp : ∀ g, g ≠ b → pendPred (setGroup (setTask s t (exitTask (s.tasks t) (s.groups b) b)) b
+        (exitGroup (s.tasks t) (s.groups b) o)) g = pendPred s g := by
+      intro g hg; simp [pendPred, hg]
+    refine ⟨?_, ?_, ?_, ?_, ?_, ?_⟩
+    · intro x; simp only [setGroup_tasks, setTask_tasks]; split
+      · rename_i e; subst e; exact h.nodup x
+      · exact h.nodup x
+    · intro x g hg he
+      simp only [setGroup_tasks, setTask_tasks, setGroup_groups] at hg he ⊢
+      by_cases hgb : g = b
+      · subst hgb
+        have hxt : x = t := by
+          have hg' : g ∈ asyncGroups (s.tasks x).frames := by
+            split at hg
+            · rename_i e; subst e; exact hg
+            · exact hg
+          exact (hw.frames_owner x g hg').1.symm.trans hown
+        subst hxt; exact ⟨!(s.groups g).members.isEmpty, by simp [exitTask]⟩
+      · simp only [hgb, ↓reduceIte] at he
+        have hg' : g ∈ asyncGroups (s.tasks x).frames := by
+          split at hg
+          · rename_i e; subst e; exact hg
+          · exact hg
+        obtain ⟨susp, hh⟩ := h.exiting_wait x g hg' he
+        split
+        · rename_i e; subst e; exact absurd hh (hnw g susp)
+        · exact ⟨susp, hh⟩
+    · intro x b' susp hx
+      simp only [setGroup_tasks, setTask_tasks, setGroup_groups] at hx ⊢
+      split at hx
+      · rename_i e; subst e
+        simp only [exitTask, Status.exitWait.injEq] at hx
+        obtain ⟨rfl, _⟩ := hx
+        simp [exitGroup]
+      · have := h.wait_exiting x b' susp hx
+        split
+        · simp [exitGroup]
+        · exact this
+    · intro x hx
+      simp only [setGroup_tasks, setTask_tasks] at hx ⊢
+      split
+      · rename_i e; subst e
+        simp only [↓reduceIte, exitTask] at hx
+        have := h.untouched x hx
+        simp only [exitTask, uncancelled]
+        refine ⟨?_, this.2⟩
+        split <;> omega
+      · rename_i e; simp only [e, ↓reduceIte] at hx; exact h.untouched x hx
+    · intro x hx
+      simp only [setGroup_tasks, setTask_tasks] at hx ⊢
+      split
+      · rename_i e; subst e; simp only [↓reduceIte, exitTask] at hx; exact h.owed_asks x hx
+      · rename_i e; simp only [e, ↓reduceIte] at hx; exact h.owed_asks x hx
+    · intro x
+      have hc0 := h.count x
+      simp only [setGroup_tasks, setTask_tasks]
+      split
+      · rename_i e; subst e
+        have hfr' : (exitTask (s.tasks x) (s.groups b) b).frames = ⟨b, true⟩ :: rest := hfr
+        have hcr : (exitTask (s.tasks x) (s.groups b) b).cancelReq = uncancelled (s.tasks x) (s.groups b) := rfl
+        have has : (exitTask (s.tasks x) (s.groups b) b).asks = (s.tasks x).asks := rfl
+        generalize hS' : setGroup (setTask s x (exitTask (s.tasks x) (s.groups b) b)) b
+          (exitGroup (s.tasks x) (s.groups b) o) = S' at hpp ⊢
+        have h1 : pendPred S' b = false := by rw [← hS']; simp [pendPred, exitGroup]
+        simp only [pend, hfr', hcr, has, asyncGroups_cons, ↓reduceIte, List.countP_cons, h1]
+        have h2 : (asyncGroups rest).countP (pendPred S') = (asyncGroups rest).countP (pendPred s) :=
+          List.countP_congr (fun g hg => by rw [hpp g (fun e => hnd.1 (e ▸ hg))])
+        rw [h2]
+        simp only [pend, hfr, asyncGroups_cons, ↓reduceIte, List.countP_cons] at hc0
+        have h3 : pendPred s b = (s.groups b).pcr := by simp [pendPred, hnex]
+        rw [h3] at hc0
+        simp only [uncancelled]
+        cases hp : (s.groups b).pcr <;> simp [hp] at hc0 ⊢ <;> omega
+      · rename_i e
+        have : pend (setGroup (setTask s t (exitTask (s.tasks t) (s.groups b) b)) b (exitGroup (s.tasks t) (s.groups b) o))
+            (s.tasks x) = pend s (s.tasks x) :=
+          pend_congr _ _ _ _ rfl (fun g hg => hpp g (fun e' => hother x e (e' ▸ hg)))
+        rw [this]; exact hc0
+  unfold beginExit
+  simp only
+  split
+  · exact Wf2_abort h0 b
+  · exact h0
+
 theorem step_Wf2 {s s' : Sys} {l : Label} (hw : Wf s) (h : Wf2 s) (hs : step s l = some s') : Wf2 s' := by
   cases l with
   | rel g =>
@@ -407,16 +510,24 @@ theorem step_Wf2 {s s' : Sys} {l : Label} (hw : Wf s) (h : Wf2 s) (hs : step s l
         subst hf
         exact Wf2_setTask h t _ (by quiet2_fields)
     · simp at hs
-  | enterfail t b =>
+  | enterfail t b o =>
     simp only [step] at hs
     split at hs
-    · rename_i hc; simp only [Option.some.injEq] at hs; subst hs
-      refine Wf2_setTask h t _ ?_
-      have hto : (s.tasks t).touched = true := by
-        cases htt : (s.tasks t).touched with
-        | true => rfl
-        | false => have := (h.untouched t htt).2; rw [hc.2] at this; cases this
-      quiet2_fields
+    · rename_i hc
+      split at hs
+      · simp at hs
+      · simp only [Option.some.injEq] at hs; subst hs
+        exact Wf2_setTask h t _ (by quiet2_fields)
+      · split at hs
+        · rename_i hm
+          simp only [Option.some.injEq] at hs; subst hs
+          refine Wf2_setTask h t _ ?_
+          have hto : (s.tasks t).touched = true := by
+            cases htt : (s.tasks t).touched with
+            | true => rfl
+            | false => have := (h.untouched t htt).2; rw [hm] at this; cases this
+          quiet2_fields
+        · simp at hs
     · simp at hs
   | spawn t c viaGroup =>
     simp only [step] at hs
@@ -548,106 +659,31 @@ theorem step_Wf2 {s s' : Sys} {l : Label} (hw : Wf s) (h : Wf2 s) (hs : step s l
         obtain ⟨hf, hbo⟩ := hc
         subst hf
         simp only [Option.some.injEq] at hs; subst hs
-        have hin : b ∈ asyncGroups (s.tasks t).frames := by rw [hfr]; simp [asyncGroups_cons]
-        have hown := (hw.frames_owner t b hin).1
-        have hst : (s.tasks t).status = .body ∨ ∃ o', (s.tasks t).status = .unwinding o' := by
-          unfold bodyOutcome at hbo; split at hbo <;> simp_all
-        have hnw : ∀ g susp, (s.tasks t).status ≠ .exitWait g susp := by
-          intro g susp hh; rcases hst with e | ⟨o', e⟩ <;> rw [e] at hh <;> cases hh
-        have hnex : (s.groups b).exiting = false := by
-          cases he : (s.groups b).exiting with
-          | false => rfl
-          | true => obtain ⟨susp, hh⟩ := h.exiting_wait t b hin he; exact absurd hh (hnw b susp)
-        have hnd := h.nodup t
-        rw [hfr] at hnd
-        simp only [asyncGroups_cons, ↓reduceIte, List.nodup_cons] at hnd
-        have hother : ∀ x, x ≠ t → b ∉ asyncGroups (s.tasks x).frames := fun x hx hxb =>
-          hx ((hw.frames_owner x b hxb).1.symm.trans hown)
-        -- the state before the (quiet) abort
-        have h0 : Wf2 (setGroup (setTask s t (exitTask (s.tasks t) (s.groups b) b)) b (exitGroup (s.tasks t) (s.groups b) o)) := by
-          have hpp : ∀ g, g ≠ b → pendPred (setGroup (setTask s t (exitTask (s.tasks t) (s.groups b) b)) b
-              (exitGroup (s.tasks t) (s.groups b) o)) g = pendPred s g := by
-            intro g hg; simp [pendPred, hg]
-          refine ⟨?_, ?_, ?_, ?_, ?_, ?_⟩
-          · intro x; simp only [setGroup_tasks, setTask_tasks]; split
-            · rename_i e; subst e; exact h.nodup x
-            · exact h.nodup x
-          · intro x g hg he
-            simp only [setGroup_tasks, setTask_tasks, setGroup_groups] at hg he ⊢
-            by_cases hgb : g = b
-            · subst hgb
-              have hxt : x = t := by
-                have hg' : g ∈ asyncGroups (s.tasks x).frames := by
-                  split at hg
-                  · rename_i e; subst e; exact hg
-                  · exact hg
-                exact (hw.frames_owner x g hg').1.symm.trans hown
-              subst hxt; exact ⟨!(s.groups g).members.isEmpty, by simp [exitTask]⟩
-            · simp only [hgb, ↓reduceIte] at he
-              have hg' : g ∈ asyncGroups (s.tasks x).frames := by
-                split at hg
-                · rename_i e; subst e; exact hg
-                · exact hg
-              obtain ⟨susp, hh⟩ := h.exiting_wait x g hg' he
-              split
-              · rename_i e; subst e; exact absurd hh (hnw g susp)
-              · exact ⟨susp, hh⟩
-          · intro x b' susp hx
-            simp only [setGroup_tasks, setTask_tasks, setGroup_groups] at hx ⊢
-            split at hx
-            · rename_i e; subst e
-              simp only [exitTask, Status.exitWait.injEq] at hx
-              obtain ⟨rfl, _⟩ := hx
-              simp [exitGroup]
-            · have := h.wait_exiting x b' susp hx
-              split
-              · simp [exitGroup]
-              · exact this
-          · intro x hx
-            simp only [setGroup_tasks, setTask_tasks] at hx ⊢
-            split
-            · rename_i e; subst e
-              simp only [↓reduceIte, exitTask] at hx
-              have := h.untouched x hx
-              simp only [exitTask, uncancelled]
-              refine ⟨?_, this.2⟩
-              split <;> omega
-            · rename_i e; simp only [e, ↓reduceIte] at hx; exact h.untouched x hx
-          · intro x hx
-            simp only [setGroup_tasks, setTask_tasks] at hx ⊢
-            split
-            · rename_i e; subst e; simp only [↓reduceIte, exitTask] at hx; exact h.owed_asks x hx
-            · rename_i e; simp only [e, ↓reduceIte] at hx; exact h.owed_asks x hx
-          · intro x
-            have hc0 := h.count x
-            simp only [setGroup_tasks, setTask_tasks]
-            split
-            · rename_i e; subst e
-              have hfr' : (exitTask (s.tasks x) (s.groups b) b).frames = ⟨b, true⟩ :: rest := hfr
-              have hcr : (exitTask (s.tasks x) (s.groups b) b).cancelReq = uncancelled (s.tasks x) (s.groups b) := rfl
-              have has : (exitTask (s.tasks x) (s.groups b) b).asks = (s.tasks x).asks := rfl
-              generalize hS' : setGroup (setTask s x (exitTask (s.tasks x) (s.groups b) b)) b
-                (exitGroup (s.tasks x) (s.groups b) o) = S' at hpp ⊢
-              have h1 : pendPred S' b = false := by rw [← hS']; simp [pendPred, exitGroup]
-              simp only [pend, hfr', hcr, has, asyncGroups_cons, ↓reduceIte, List.countP_cons, h1]
-              have h2 : (asyncGroups rest).countP (pendPred S') = (asyncGroups rest).countP (pendPred s) :=
-                List.countP_congr (fun g hg => by rw [hpp g (fun e => hnd.1 (e ▸ hg))])
-              rw [h2]
-              simp only [pend, hfr, asyncGroups_cons, ↓reduceIte, List.countP_cons] at hc0
-              have h3 : pendPred s b = (s.groups b).pcr := by simp [pendPred, hnex]
-              rw [h3] at hc0
-              simp only [uncancelled]
-              cases hp : (s.groups b).pcr <;> simp [hp] at hc0 ⊢ <;> omega
-            · rename_i e
-              have : pend (setGroup (setTask s t (exitTask (s.tasks t) (s.groups b) b)) b (exitGroup (s.tasks t) (s.groups b) o))
-                  (s.tasks x) = pend s (s.tasks x) :=
-                pend_congr _ _ _ _ rfl (fun g hg => hpp g (fun e' => hother x e (e' ▸ hg)))
-              rw [this]; exact hc0
-        unfold beginExit
-        simp only
-        split
-        · exact Wf2_abort h0 b
-        · exact h0
+        exact beginExit_Wf2 hw h t b o rest hfr (bodyOutcome_status hbo)
+      · simp at hs
+    · simp at hs
+  | cleanupEnd t b o consumed =>
+    simp only [step] at hs
+    split at hs
+    · rename_i f rest o0 hfr hbo
+      split at hs
+      · rename_i hf
+        subst hf
+        have hst := bodyOutcome_status hbo
+        split at hs
+        · split at hs
+          · simp only [Option.some.injEq] at hs; subst hs
+            have hq : TaskQuiet2 (s.tasks t) { s.tasks t with mustCancel := false } := by
+              rcases hst with hst | ⟨o', hst⟩ <;>
+                (refine ⟨by constructor <;> simp_all [isDone, isLive], ?_, ?_, ?_, ?_, ?_⟩ <;> simp_all)
+            have hw1 := Wf_setTask hw t { s.tasks t with mustCancel := false } hq.base
+            have h1 := Wf2_setTask h t { s.tasks t with mustCancel := false } hq
+            exact beginExit_Wf2 hw1 h1 t b .cancelled rest (by simpa using hfr) (by simpa using hst)
+          · simp at hs
+        · split at hs
+          · simp only [Option.some.injEq] at hs; subst hs
+            exact beginExit_Wf2 hw h t b o rest hfr hst
+          · simp at hs
       · simp at hs
     · simp at hs
   | left t b o =>
